@@ -81,6 +81,10 @@ CHECKS = {
    text="Process histories are enumerated (each in a fresh interpreter: repetition, prefixes of other analyses, permutations of goals, PYTHONHASHSEED values, exact-mode flag flips, a settings residue after PlotAction, multi-benchmark CLI runs) and the result of the last analysis is compared with the same analysis in a fresh process. Equality 'up to names of generated symbols' is decided semantically: closed forms by z3 equivalence at every n <= 4 for all parameter values, invariants by mutual ideal inclusion, inferred types by value sets, error outcomes by type.",
    ref="DESIGN.md 3/C20", tech="enumeration of process histories; z3 decides semantic equality of the results (the history quantifier itself is not symbolic)",
    note="The quantifier of this property ranges over concrete process runs, which no solver encodes: histories of <= 3 analyses, <= 3 goals, 4/16 hash seeds are enumerated. The solver removes the false alarms a textual comparison would raise (term order changes with the hash seed)."),
+ "C14": dict(cat="translation_validation",
+   text="For the unsolvable benchmark loops the real synth_inv / synth_loop run with the candidate sets and degrees of the repository's tests (thorough: more loops); for every returned pair (Q, f) one z3 query per n <= N decides E[Q(state_n)] = f(n) against the reference semantics of the original loop, for all initial values and all free coefficients of the solution family; every synthesised solvable loop is read back and its variables (including the fresh combination variable) are compared with the original loop's expectations at n <= N.",
+   ref="DESIGN.md 3/C14", tech="z3 equivalence of synthesised closed forms / synthesised programs with the k-step reference semantics of the original loop",
+   note="Trusted: vlib/sem.py, z3. Bounded: n <= 3/4 (expression growth of non-linear loops), the listed loops, candidate sets and degrees; the classification kernel is C18's solver-decided leg."),
 }
 NA_REASON = "check not built yet in this session (see DESIGN.md section 3 for the planned solver-based check)"
 
